@@ -273,6 +273,13 @@ class TypedNode(Node):
                 self.add_child(n, before=before, deep=deep)
             return
 
+        # Validate `before` first: creating the node already registers it
+        if isinstance(before, Node) and before._parent is not self:
+            raise ValueError(
+                f"`before=node` ({before._parent}) "
+                f"must be a child of target node ({self})"
+            )
+
         source_node = None
         factory = self._tree._node_factory
         if isinstance(child, Node):  # TypedNode):
